@@ -13,9 +13,11 @@ RULE = ("every builder output for all sizes num_x, num_y <= 8 (quick 5) and 4 sp
         "specs entirely: compared zone by zone with the Lean models of the builders, and checked directly against the "
         "documented geometry (site coordinates i*s, left/right partition with pairs gate_spacing apart, Gemini block "
         "sizes, blocks being sub-sets of their parent zone, constants vs geometry, capability names exist, deprecated "
-        "builder equals its replacement). non-trivial = spec with more than one site; distinct = distinct parameter tuples.")
+        "builder equals its replacement); plus integer-typed and non-binary-fraction spacings (0.1, 0.3, 1.3, 3.7, 1/3) for counts "
+        "up to 13, checked directly (counts exactly, coordinates to 1e-9). non-trivial = spec with more than one site; distinct = distinct parameter tuples.")
 TRUSTED = ["modelled, not verified: bloqade-geometry Grid/SubGrid arithmetic (Model/Grid.lean)"]
-ASSUMPTIONS = ["coordinates are dyadic rationals for which binary64 arithmetic is exact"]
+ASSUMPTIONS = ["model comparison: coordinates are dyadic rationals for which binary64 arithmetic is exact; other spacings are "
+               "checked with a relative tolerance of 1e-9"]
 CASE_REPLAY = False
 
 
@@ -39,6 +41,46 @@ def caps_ok(ctx, s, case):
         for z in cap:
             if z not in l.static_traps:
                 ctx.fail(case, f"capability set {nm} names '{z}', which is not a static trap zone")
+
+
+def numeric_stream(ctx, single_col_zone, two_col_zone, old_spec):
+    """argument types and values outside the dyadic sweep: Python ints, spacings that are no binary fractions; checked directly
+    (counts exactly, coordinates to 1e-9), not through the exact Lean model"""
+    def close(a, b):
+        return len(a) == len(b) and all(abs(x - y) <= 1e-9 * max(1.0, abs(y)) for x, y in zip(a, b))
+    N = 14 if ctx.tier == "thorough" else 13
+    for s in (0.1, 0.3, 1.3, 3.7, 1.0 / 3.0, 10, 4, 7):
+        for n in range(1, N + 1):
+            for nx, ny in ((n, 2), (3, n)):
+                case = {"builder": "single_col_zone.get_spec", "args": [nx, ny, repr(s)]}
+                ctx.count("numeric_single")
+                ctx.seen(("numeric-single", nx, ny, repr(s)), True)
+                sp = single_col_zone.get_spec(nx, ny, s)
+                z = sp.layout.static_traps["traps"]
+                if z.shape != (nx, ny):
+                    ctx.fail(case, f"single-zone layout has shape {z.shape}, requested ({nx}, {ny})")
+                elif not (close(list(z.x_positions), [i * s for i in range(nx)]) and close(list(z.y_positions), [j * s for j in range(ny)])):
+                    ctx.fail(case, "single-zone sites are not i*spacing, j*spacing")
+                old = old_spec.single_zone_spec(nx, ny, s)
+                if old.layout.static_traps["traps"].shape != z.shape:
+                    ctx.fail(case, "deprecated single_zone_spec differs from single_col_zone.get_spec")
+    for s, gs in ((10, 2.5), (10, 0.75), (4, 1.5), (7, 2), (10.0, 3), (0.3, 0.1), (3.7, 1.3)):
+        for nx, ny in ((1, 1), (2, 3), (4, 2), (5, 5)):
+            case = {"builder": "two_col_zone.get_spec", "args": [nx, ny, repr(s), repr(gs)]}
+            ctx.count("numeric_twocol")
+            ctx.seen(("numeric-twocol", nx, ny, repr(s), repr(gs)), True)
+            try:
+                sp = two_col_zone.get_spec(nx, ny, s, gs)
+            except Exception as e:  # noqa: BLE001
+                ctx.fail(case, f"two-column builder raises on valid arguments: {type(e).__name__}: {str(e)[:120]}")
+                continue
+            l = sp.layout.static_traps
+            lx, rx = list(l["left_traps"].x_positions), list(l["right_traps"].x_positions)
+            if l["traps"].shape != (2 * nx, ny) or l["left_traps"].shape != (nx, ny) or l["right_traps"].shape != (nx, ny):
+                ctx.fail(case, "two-column zones do not have the requested shapes")
+            elif not (close(lx, [k * (s + gs) for k in range(nx)]) and close(rx, [k * (s + gs) + gs for k in range(nx)])
+                      and close(list(l["traps"].y_positions), [j * s for j in range(ny)])):
+                ctx.fail(case, "left/right trap sites are not pairs gate_spacing apart, pairs spacing apart")
 
 
 def run(ctx):
@@ -87,6 +129,7 @@ def run(ctx):
             ctx.fail(case, "left/right traps do not partition the trap zone")
         caps_ok(ctx, sp, case)
         ctx.count("twocol")
+    numeric_stream(ctx, single_col_zone, two_col_zone, old_spec)
     fresh_results(ctx, single_col_zone, two_col_zone, old_spec, base_spec, logical)
     try:
         gemini(ctx, base_spec.get_base_spec(), logical.get_spec(), reqs, impls, metas)
